@@ -32,11 +32,11 @@ theorem prevSibling_eq {f : Forest} {h : Nat} {c : HTree.Ctx} (hc : f.ctx? h = s
   unfold prevSibling; rw [hc]
   cases hk : c.left.getLast? <;> simp [hk]
 
-theorem firstChild_eq {f : Forest} {p : Nat} {tp : HTree} (hg : f.get? p = some tp) :
+theorem ff_firstChild_eq {f : Forest} {p : Nat} {tp : HTree} (hg : f.get? p = some tp) :
     f.firstChild p = ((tp.kids.dropWhile (fun k => !k.value.isNormal)).head?).map (·.handle) := by
   unfold firstChild; rw [hg]
 
-theorem prependPoint_eq {f : Forest} {p : Nat} {tp : HTree} (hg : f.get? p = some tp) :
+theorem ff_prependPoint_eq {f : Forest} {p : Nat} {tp : HTree} (hg : f.get? p = some tp) :
     f.prependPoint p =
       ((tp.kids.takeWhile (fun k => k.value.category != .normal)).getLast?).map (·.handle) := by
   unfold prependPoint; rw [hg]
@@ -168,7 +168,7 @@ theorem prepend_root (h : RootAt f X tc Y) {A B ks : List HTree} {p : Nat} {v : 
   have hdw : ks.dropWhile (fun k => !k.value.isNormal) = [] := by
     apply ffx_dropWhile_all; intro k hk; simp [hks k hk]
   have hfc : f.firstChild p = none := by
-    rw [Forest.firstChild_eq hget]; simp [HTree.kids, hdw]
+    rw [Forest.ff_firstChild_eq hget]; simp [HTree.kids, hdw]
   have htw : ks.takeWhile (fun k => k.value.category != .normal) = ks := by
     apply ffx_takeWhile_all
     intro k hk
@@ -176,7 +176,7 @@ theorem prepend_root (h : RootAt f X tc Y) {A B ks : List HTree} {p : Nat} {v : 
     simp only [Value.isNormal, beq_eq_false_iff_ne, ne_eq] at this
     simpa using this
   have hpp : f.prependPoint p = ks.getLast?.map HTree.handle := by
-    rw [Forest.prependPoint_eq hget]; simp only [HTree.kids, htw]
+    rw [Forest.ff_prependPoint_eq hget]; simp only [HTree.kids, htw]
   have hcp : f.prevSibling tc.handle = none := by unfold Forest.prevSibling; rw [h.ctx?_self]
   have hcn' : f.nextSibling tc.handle = none := by unfold Forest.nextSibling; rw [h.ctx?_self]
   have hadd : f.addConsolidate tc.handle none none = (f, false) :=
